@@ -198,6 +198,7 @@ type fnMeta struct {
 	stub    Value
 	thunder bool
 	native  bool
+	atomic  bool
 }
 
 func (eng *Engine) metaOf(fn *ssa.Function) *fnMeta {
@@ -216,6 +217,7 @@ func (eng *Engine) metaOf(fn *ssa.Function) *fnMeta {
 	if fn.Pkg != nil {
 		m.thunder = strings.HasPrefix(fn.Pkg.Pkg.Path(), "github.com/samsarahq/thunder")
 		m.native = isNativePkg(fn.Pkg.Pkg.Path())
+		m.atomic = fn.Pkg.Pkg.Path() == "context" && fn.Synthetic == ""
 	}
 	eng.fnMetas.Store(fn, m)
 	return m
@@ -248,6 +250,14 @@ func (st *State) callSSA(caller *frame, pos token.Pos, fn *ssa.Function, args []
 	}
 	if meta.thunder {
 		st.funcs[name] = true
+	}
+	if meta.atomic && st.cur != nil && st.cur.noSched == 0 {
+		// the function's internal synchronisation is not interleaved with other
+		// threads: it is one visible operation
+		st.schedPoint("atomic " + name)
+		th := st.cur
+		th.noSched++
+		defer func() { th.noSched-- }()
 	}
 	fr := &frame{st: st, caller: caller, fn: fn, callPos: pos}
 	if caller != nil {
